@@ -505,10 +505,11 @@ class Sim:
         self._to_har = threading.Semaphore(0)
         self.mgr = mm.MessageManager("127.0.0.1", 7111, timecode=timecode, log_level=log_level,
                                      debug=False, send_msg_timing=send_msg_timing)
-        try:
-            self.mgr.logger.enable_console = False
-        except Exception:
-            pass
+        if console != "sink":
+            try:
+                self.mgr.logger.enable_console = False
+            except Exception:
+                pass
         self.listener = self.mgr.listen_socket
         self.thread = threading.Thread(target=self._main, daemon=True)
         self.thread.start()
